@@ -40,7 +40,10 @@ def grid(tier, seed, section):
         # C04.unsigned_power_value_wraps: power_value asserts that every product fits; it used to wrap silently)
         out.append(('u32', -9, 'u32', 0, 10))
         out.append(('u64', -19, 'u64', 0, 10))
-    n = (35 if section == 'C04' else 34) if tier == 'quick' else 160
+    if section == 'C02':
+        # / % and quotient() do not align exponents: divisor exponents far below minus the width of its representation
+        out += [('u32', 0, 'u32', -40, 2), ('i32', 0, 'i32', -40, 2), ('i16', -3, 'u8', -20, 2), ('u8', 0, 'u8', -12, 2), ('i64', -10, 'i32', -50, 2), ('i32', -40, 'u16', 3, 2)]
+    n = (35 if section == 'C04' else 40 if section == 'C02' else 34) if tier == 'quick' else 166
     tries = 0
     while len(out) < n and tries < 5000:
         tries += 1
